@@ -52,6 +52,7 @@ class Gen:
                  allow_pauli_measure=True, keyed_channels=True, max_ops=10, leaf_bits_cap=8.0,
                  allow_subcircuits=False):
         self.allow_subcircuits = allow_subcircuits and allow_measure
+        self.channel_pool: List = []             # channel gate objects that may be applied again
         self.allow_qubitless = False            # set by a workload that can drive a circuit without qubits
         self.product_clifford_gates = False     # set by a workload that routes such circuits to general simulators
         self.t = tape
@@ -129,6 +130,28 @@ class Gen:
                                      axis_phase_exponent=self._pick(EXPONENTS, "exp")).on(q)
         self.features.add("matrix-gate")
         return cirq.MatrixGate(self._unitary_matrix(2)).on(q)
+
+    def entangled_swap(self):
+        """An entangled pair, something visible on one of its qubits, then a full SWAP of the pair: the product-state
+        simulators relabel the two axes of the joint state instead of moving amplitudes."""
+        qs2 = self.qubits_only()
+        if len(qs2) < 2:
+            return None
+        a, b = self._pick_distinct(qs2, 2, "es-q")
+        ops = [cirq.CNOT(a, b) if self.clifford_only or self.t.chance(1, 2, "es-cnot?") else cirq.CZ(a, b) ** 0.5]
+        ops.append((cirq.X if self.clifford_only else cirq.ry(math.pi / 8 * self._pick(EIGHTHS, "angle"))).on(a))
+        if self.allow_measure and self.leaf_bits + 1 <= self.cap and self.t.chance(1, 2, "es-measure?"):
+            key = self._pick(["a", "b", "c"], "key")
+            if self.key_dims.get(key, (2,)) == (2,) and key not in self.channel_keys:
+                if key in self.key_dims:
+                    self.features.add("repeated-key")
+                self.key_dims[key] = (2,)
+                self.key_instances[key] = self.key_instances.get(key, 0) + 1
+                self.leaf_bits += 1
+                ops.append(cirq.measure(a, key=key))
+        ops.append(cirq.SWAP(a, b) if self.t.chance(2, 3, "es-order?") else cirq.SWAP(b, a))
+        self.features.add("swap-inside-entangled-block")
+        return ops
 
     def global_phase(self) -> Optional[cirq.Operation]:
         """An operation on no qubits: a phase factor for the state vector, nothing for a density matrix."""
@@ -623,7 +646,20 @@ class Gen:
         q = self._pick(qs2, "q")
         # (incl. values next to the special cases 0 and 1, where implementations take shortcuts)
         pr = self._pick([0.125, 0.25, 0.5, 0.0625, 0.75, 1.0, 0.0, 0.999995, 0.000005], "ch-p")
-        kind = self.t.weighted([3, 2, 2, 2, 2, 2, 2, 2, 2, 1, 2, 2, 1], "ch-kind")
+        if self.channel_pool and self.t.chance(1, 6, "reuse-channel-object?"):
+            # the very same gate object once more (what an application leaves behind in the object must not matter)
+            g0 = self._pick(self.channel_pool, "reused")
+            fit = [x for x in self.qudits if x.dimension == cirq.qid_shape(g0)[0]]
+            nq = cirq.num_qubits(g0)
+            if len(fit) >= nq and all(d == cirq.qid_shape(g0)[0] for d in cirq.qid_shape(g0)):
+                tq = self._pick_distinct(fit, nq, "reuse-q")
+                bits0 = math.log2(max(2, len(cirq.kraus(g0))))
+                if self.leaf_bits + bits0 <= self.cap:
+                    self.leaf_bits += bits0
+                    self.has_nonunitary_channel = True
+                    self.features.update({"channel", "channel-object-reused"})
+                    return g0.on(*tq)
+        kind = self.t.weighted([3, 2, 2, 2, 2, 2, 2, 2, 2, 1, 2, 2, 1, 2, 2], "ch-kind")
         bits = 2.0
         op = None
         if kind == 0:
@@ -667,10 +703,38 @@ class Gen:
                 key = None
             if key is not None:
                 self.channel_keys.add(key)
-            op = cirq.MixedUnitaryChannel([(1 - pr, np.eye(2)), (pr, u)], key=key).on(q)
+            mix = [(1 - pr, np.eye(2)), (pr, u)]
+            if self.t.chance(1, 2, "zero-weight-branch?"):
+                # a branch of weight zero in front of a live one: the recorded index counts all listed branches
+                mix.insert(self.t.draw(2, "zero-at"), (0.0, cirq.unitary(cirq.X)))
+                self.features.add("mixture-with-zero-weight-branch")
+            op = cirq.MixedUnitaryChannel(mix, key=key).on(q)
             bits = 1
             if key:
                 self.features.add("keyed-channel")
+        elif kind == 13:
+            # a channel given by stored complex Kraus matrices on two qubits or on a qutrit (the general
+            # tensor-contraction path of apply_channel)
+            if len(qs2) < 2:
+                return None            # (KrausChannel itself is defined over qubits only)
+            tq = self._pick_distinct(qs2, 2, "q2")
+            d = 4
+            u1, u2 = self._unitary_matrix(d), self._unitary_matrix(d)
+            ph = np.diag(np.exp(1j * np.pi / 2 * np.arange(d) / d))
+            g0 = cirq.KrausChannel([math.sqrt(1 - pr) * (u1 @ ph), math.sqrt(pr) * u2])
+            op = g0.on(*tq)
+            bits = 1
+            self.channel_pool.append(g0)
+            self.features.add("stored-kraus-multi")
+        elif kind == 14:
+            # "apply with probability p" around a channel that hands out its stored matrices
+            u = self._unitary_matrix(2)
+            inner = cirq.KrausChannel([math.sqrt(0.75) * np.eye(2, dtype=complex), math.sqrt(0.25) * u])
+            g0 = inner.with_probability(pr if 0 < pr < 1 else 0.5)
+            op = g0.on(q)
+            bits = 2
+            self.channel_pool.append(g0)
+            self.features.add("random-gate-channel-of-stored-kraus")
         elif kind == 11:
             # a mixture applied only when other qudits hold given values (controlled_by accepts mixtures)
             others = [x for x in self.qudits if x != q]
@@ -744,10 +808,12 @@ class Gen:
                    1 if (self.allow_pauli_measure and self.allow_measure) else 0,
                    4 if self.allow_channels else 0,
                    2 if self.allow_subcircuits else 0,
+                   1,
                    1]
         makers = [self.single, self.double, self.measure, self.controlled, self.reset, self.pauli_measure, self.channel,
-                  self.subcircuit, self.global_phase]
-        names = ["1q", "2q", "measure", "controlled", "reset", "pauli-measure", "channel", "subcircuit", "global-phase"]
+                  self.subcircuit, self.global_phase, self.entangled_swap]
+        names = ["1q", "2q", "measure", "controlled", "reset", "pauli-measure", "channel", "subcircuit", "global-phase",
+                 "entangled-swap"]
         for _ in range(n_ops):
             k = self.t.weighted(weights, "op-kind")
             op = makers[k]()
